@@ -98,6 +98,9 @@ func (e *Envelope) VerifySignature(sig *dsig.Signature, keys ...*dsig.PublicKey)
 }
 
 func (e *Envelope) verifySignature(sig *dsig.Signature, keys ...*dsig.PublicKey) error {
+	if sig == nil || sig.JSONWebSignature() == nil {
+		return errors.New("missing signature data")
+	}
 	if len(keys) == 0 {
 		// no keys provided, only check the contents
 		h := new(head.Header)
@@ -131,12 +134,23 @@ func (e *Envelope) ValidateWithContext(ctx context.Context) error {
 		validation.Field(&e.Schema, validation.Required),
 		validation.Field(&e.Head, validation.Required),
 		validation.Field(&e.Document, validation.Required), // this will also check payload
-		validation.Field(&e.Signatures),
+		validation.Field(&e.Signatures, validation.Each(validation.By(validateSignaturePresent))),
 	)
 	if err != nil {
 		return wrapError(err)
 	}
 	return wrapError(e.verifyDigest())
+}
+
+// validateSignaturePresent ensures that each entry in the list of signatures
+// contains real signature data, as opposed to nil or empty entries which
+// may result from parsing.
+func validateSignaturePresent(value interface{}) error {
+	sig, ok := value.(*dsig.Signature)
+	if !ok || sig == nil || sig.JSONWebSignature() == nil {
+		return errors.New("missing signature data")
+	}
+	return nil
 }
 
 func (e *Envelope) verifyDigest() error {
